@@ -171,3 +171,65 @@ theorem roundtrip_mindsdb (v rest : List Char) (hv : encOK v = true) (hr : rest.
   rw [this, hd, e3]
 
 end MindsVerif.Codec
+
+/-! ### the fallback path of `SqlalchemyRender.get_string` (`with_failback=True`, the default): when the renderer refuses
+a tree the caller receives `str(ast)`, i.e. the LIBRARY spelling of a constant (`Codec.constantToString`), whatever the
+target dialect is -/
+namespace MindsVerif.Codec
+open MindsVerif.Py MindsVerif.Lex MindsVerif.LitRender MindsVerif.Literal
+
+/-- body of the library spelling -/
+def libBody (v : List Char) : List Char := replace ['\''] ['\\', '\''] (replace ['\\'] ['\\', '\\'] v)
+
+theorem libBody_cons (c : Char) (t : List Char) :
+    libBody (c :: t) = (if c = '\\' then ['\\', '\\'] else if c = '\'' then ['\\', '\''] else [c]) ++ libBody t := by
+  unfold libBody
+  by_cases hb : c = '\\'
+  · subst hb
+    rw [replace1_cons_eq]
+    simp only [List.cons_append, List.nil_append]
+    rw [replace1_cons_ne (by decide), replace1_cons_ne (by decide)]; simp
+  · rw [replace1_cons_ne hb]
+    by_cases hq : c = '\''
+    · subst hq; rw [replace1_cons_eq]; simp
+    · rw [replace1_cons_ne hq]; simp [hb, hq]
+
+/-- a MySQL-family target reads the library spelling back: all strings -/
+theorem mysqlBody_lib (rest : List Char) (hr : rest.head? ≠ some '\'') :
+    ∀ v : List Char, mysqlBody (libBody v ++ '\'' :: rest) = some (v, rest)
+  | [] => by
+    have : libBody [] = [] := by simp [libBody, replace1_nil]
+    simpa [this] using mysqlBody_close rest hr
+  | c :: t => by
+    have ih := mysqlBody_lib rest hr t
+    rw [libBody_cons]
+    by_cases hb : c = '\\'
+    · subst hb; simp [mysqlBody, mysqlEsc, ih]
+    · by_cases hq : c = '\''
+      · subst hq; simp [mysqlBody, mysqlEsc, ih]
+      · obtain ⟨d, T, hX⟩ : ∃ d T, libBody t ++ '\'' :: rest = d :: T := by
+          cases libBody t with
+          | nil => exact ⟨_, _, rfl⟩
+          | cons a b => exact ⟨_, _, rfl⟩
+        rw [hX] at ih
+        simp only [hb, hq, if_false, List.cons_append, List.nil_append]
+        rw [hX]
+        simp [mysqlBody, hb, hq, ih]
+
+theorem fallback_mysql (v rest : List Char) (hr : rest.head? ≠ some '\'') :
+    mysqlLex (constantToString v ++ rest) = some (v, rest) := by
+  have := mysqlBody_lib rest hr v
+  simpa [constantToString, mysqlLex, libBody] using this
+
+/-- a standard-SQL target reads the library spelling back exactly for values without quote and backslash -/
+theorem fallback_std (v rest : List Char) (hr : rest.head? ≠ some '\'')
+    (h1 : ∀ c ∈ v, c ≠ '\'') (h2 : ∀ c ∈ v, c ≠ '\\') :
+    stdLex (constantToString v ++ rest) = some (v, rest) := by
+  have e1 : replace ['\\'] ['\\', '\\'] v = v := replace1_id v h2
+  have e2 : replace ['\''] ['\\', '\''] v = v := replace1_id v h1
+  have e3 : replace ['\''] ['\'', '\''] v = v := replace1_id v h1
+  have := stdBody_render rest hr v
+  rw [e3] at this
+  simp [constantToString, stdLex, e1, e2, this]
+
+end MindsVerif.Codec
